@@ -2256,6 +2256,17 @@ class Ev:
             sq = Seq(Sym("once", vkey(recv.tag[2])), lambda idx, v=recv.tag[2]: v)
             sq.once = recv.tag[2]
             return sq
+        if m in ("axis_iter", "outer_iter", "rows", "columns") and isinstance(recv, Sym) and recv.tag[:1] in (("param",), ("m",), ("field",)) and \
+                ((m == "axis_iter" and len(args) == 1 and isinstance(args[0], Sym) and args[0].tag[:2] == ("ctor", "Axis") and len(args[0].tag) == 3 and
+                  isinstance(args[0].tag[2], Poly) and args[0].tag[2].const_value() in (0, 1)) or (m != "axis_iter" and not args)):
+            # the lanes of an opaque 2-d array along an axis, in order: lane i of axis 0 is row i, of axis 1 column i (each an opaque 1-d view)
+            ax = int(args[0].tag[2].const_value()) if m == "axis_iter" else (1 if m == "columns" else 0)
+            return Seq(Sym("axis", vkey(recv), ax), lambda idx, a=recv, ax=ax: Sym("lane", vkey(a), ax, idx.key()))
+        if m == "into_shape_with_order" and len(args) == 1 and isinstance(recv, Coll) and isinstance(args[0], Tup):
+            return Sym("ctor", "Ok", Sym("reshaped", vkey(recv), vkey(args[0])))          # the same elements, row-major, in the given shape (Err only if the count differs: the `?`/expect convention)
+        if m == "cartesian_product" and len(args) == 1 and isinstance(recv, Seq) and isinstance(args[0], Seq) and not recv.enumerated and not args[0].enumerated:
+            # every pair (x, y), x outer and y inner: element number i*|ys| + j is (xs[i], ys[j]) — kept as the pair at the two positions i, j
+            return Seq(Sym("product", vkey(recv.src), vkey(args[0].src)), lambda idx, f1=recv.fn, f2=args[0].fn: Tup([f1(Poly.atom("i")), f2(Poly.atom("j"))]))
         if m == "windows" and len(args) == 1 and isinstance(args[0], Poly) and args[0].const_value() is not None and 1 <= args[0].const_value() <= 4:
             # `s.windows(k)`: the k consecutive elements starting at each position 0..len-(k-1) — for k = 2 the pairs of `s.iter().zip(s.iter().skip(1))`
             base = recv.seq if isinstance(recv, Coll) else recv
